@@ -5,7 +5,7 @@ unset TTCONV_VERIF
 repo="${TTCONV_REPO:-/repo}"
 out="$(mktemp /tmp/verif-junit.XXXXXX.xml)"
 trap 'rm -f "$out"' EXIT
-(cd "$repo" && /venv/bin/python -m pytest -ra -q -p no:cacheprovider --timeout=900 --continue-on-collection-errors --junitxml="$out" >/dev/null 2>&1)
+(cd "$repo" && PYTHONPATH="$repo/src/main/python" /venv/bin/python -m pytest -ra -q -p no:cacheprovider --timeout=900 --continue-on-collection-errors --junitxml="$out" >/dev/null 2>&1)
 /venv/bin/python - "$out" <<'PY'
 import json, sys, xml.etree.ElementTree as et
 base = json.load(open('/root/.vp/BASELINE.json'))
